@@ -51,11 +51,22 @@ class Runner:
             self.mk(reg)
             return None
 
-    def mk(self, reg):
-        self.drv.cmd("RESET")
-        r = self.drv.cmd("MGR %s %d %d %s" % (reg["db"], reg["cache"], len(reg["zones"]),
-                                            " ".join(str(z) for z in reg["zones"])))
-        reg["mgr"] = int(r)
+    def mk(self, reg, report=False):
+        """-> False when constructing the manager itself crashes or hangs (a violation when `report`: every registry the
+        generators build, the empty one included, is one the API accepts)."""
+        try:
+            self.drv.cmd("RESET")
+            r = self.drv.cmd("MGR %s %d %d %s" % (reg["db"], reg["cache"], len(reg["zones"]),
+                                                " ".join(str(z) for z in reg["zones"])), timeout=TIMEOUT)
+            reg["mgr"] = int(r)
+            return True
+        except (rpcdrv.Hang, rpcdrv.Crash) as c:
+            if report:
+                self.nfail += 1
+                what = "did not terminate" if isinstance(c, rpcdrv.Hang) else "crashed: %s" % c.stderr[-900:]
+                self.fail("create:%s:%s" % (reg["shape"], "hang" if isinstance(c, rpcdrv.Hang) else c.bucket()[:60]), reg, ("create",),
+                          "constructing the zone manager over registry %s of size %d %s" % (reg["shape"], len(reg["zones"]), what))
+            return False
 
     def check_registry(self, reg, only_query=None):
         """reg: dict(db, cache, zones=[zone idx...], shape)"""
@@ -64,7 +75,8 @@ class Runner:
         names = [NAMES[db][z] for z in reg["zones"]]
         ids = [IDS[db][z] for z in reg["zones"]]
         n = len(names)
-        self.mk(reg)
+        if not self.mk(reg, report=True):
+            return
         m = reg["mgr"]
         r = self.ask(reg, "IDX %d size" % m, ("size",))
         ctx.evaluations += 1
@@ -102,7 +114,7 @@ class Runner:
         for i in list(range(n + 2)) + [0xFFFF, 255, 256]:
             queries.append(("index", i))
         if only_query:
-            queries = [tuple(only_query)]
+            queries = [tuple(only_query)] if only_query[0] != "create" else []
         sorted_reg = all(names[i] <= names[i + 1] for i in range(n - 1)) and n > 0
         for q in queries:
             ctx.evaluations += 1
